@@ -514,6 +514,17 @@ theorem C19_rewrite_abs_form (scheme auth pathq : List Char) (hs : scheme ≠ []
     simp only [matchInput, hne, Bool.false_eq_true, if_false, hsep]
     exact fromPathStart_authority auth pathq ha hp
 
+/-- **C19_rewrite_abs_empty_authority** — the authority may be EMPTY (round 9): for
+    `GET scheme:///path?query`, `GET scheme://` and `GET scheme://?query` (net/http accepts them, the
+    Host header names the host) the rules are matched against exactly what follows `://` — the cut is
+    at offset 0 of the rest, nothing of the path is swallowed and it is not mistaken for "no path". -/
+theorem C19_rewrite_abs_empty_authority (scheme pathq : List Char) (hs : scheme ≠ []) (h0 : scheme.head? ≠ some '/')
+    (hc : ∀ c ∈ scheme, c ≠ ':')
+    (hp : pathq = [] ∨ pathq.head? = some '/' ∨ pathq.head? = some '?') :
+    matchInput (scheme ++ "://".toList ++ pathq) = pathq := by
+  have h := C19_rewrite_abs_form scheme [] pathq hs h0 hc (by intro c hcm; cases hcm) hp
+  simpa using h
+
 theorem C19_rewrite_origin_form (uri : List Char) (hu : uri.head? = some '/') : matchInput uri = uri := by
   cases uri with
   | nil => simp at hu
